@@ -14,6 +14,7 @@ python3 tools/rs2v_div.py || true
 python3 tools/rs2v_endian.py || true
 python3 tools/rs2v_conv.py || true
 python3 tools/rs2v_parse.py || true
+python3 tools/rs2v_float.py || true
 ( cd coq && coq_makefile -f _CoqProject -o Makefile >/dev/null && timeout 7200 make -j16 >/dev/null 2>.cache-make.err || { tail -50 .cache-make.err; echo "coq build reported errors (checks will report per property)"; } ; rm -f .cache-make.err )
 for prof in dbgon dbgoff; do
   ( cd harness && CARGO_TARGET_DIR=../.cache/target-$prof RUSTFLAGS="--cfg bnum_verif -Awarnings" timeout 7200 cargo build --offline --quiet --profile $prof --bins ) &
